@@ -6,7 +6,7 @@ Inspired by TT-Toolbox from MATLAB.
 """
 import torchtt
 import torch as tn
-from torchtt._decomposition import rank_chop, QR, SVD
+from torchtt._decomposition import rank_chop, QR, SVD, _unit_cores, _scaled_guess
 import datetime
 import opt_einsum as oe
 
@@ -42,11 +42,20 @@ def dmrg_matvec(A, x, y0 = None,nswp = 20, eps = 1e-12, rmax = 32768, kickrank =
         # one core only: there is no pair of cores to optimize and the exact product has rank 1
         return A @ x
 
+    # operands with cores of unit size (see _unit_cores); the factors are put back into the result
+    A_cores, fA = _unit_cores(A.cores)
+    x_cores, fx = _unit_cores(x.cores)
+    fy = [a * b for a, b in zip(fA, fx)]
+    A, x = torchtt.TT(A_cores), torchtt.TT(x_cores)
+    if y0 is not None:
+        y0 = torchtt.TT(_scaled_guess(y0.cores, fy))
+
     if _flag_use_cpp and use_cpp:
-        return torchtt.TT(torchttcpp.dmrg_mv(A.cores, x.cores, [] if y0 is None else y0.cores, A.M, A.N, x.R, [] if y0 is None else y0.R, nswp, eps, rmax, kickrank, verb))
+        y = torchtt.TT(torchttcpp.dmrg_mv(A.cores, x.cores, [] if y0 is None else y0.cores, A.M, A.N, x.R, [] if y0 is None else y0.R, nswp, eps, rmax, kickrank, verb))
         #return dmrg_matvec_python(A, x, y0, nswp, eps, rmax, kickrank, verb)
     else:
-        return dmrg_matvec_python(A, x, y0, nswp, eps, rmax, kickrank, verb)
+        y = dmrg_matvec_python(A, x, y0, nswp, eps, rmax, kickrank, verb)
+    return torchtt.TT([c * f for c, f in zip(y.cores, fy)])
     
 def dmrg_matvec_python(A, x, y0 = None, nswp = 20, eps = 1e-12, rmax = 32768, kickrank = 4, verb = False):
     """
@@ -242,7 +251,14 @@ def dmrg_hadamard(x, y, z0 = None, nswp = 20, eps = 1e-12, rmax = 32768, kickran
         return torchtt.TT(torchttcpp.dmrg_mv(A.cores, x.cores, [] if y0 is None else y0.cores, A.M, A.N, x.R, [] if y0 is None else y0.R, nswp, eps, rmax, kickrank, verb))
         #return dmrg_matvec_python(A, x, y0, nswp, eps, rmax, kickrank, verb)
     else:
-        return dmrg_hadamard_python(x, y, z0, nswp, eps, rmax, kickrank, verb)
+        # operands with cores of unit size (see _unit_cores); the factors are put back into the result
+        x_cores, fx = _unit_cores(x.cores)
+        y_cores, fy = _unit_cores(y.cores)
+        fz = [a * b for a, b in zip(fx, fy)]
+        if z0 is not None:
+            z0 = torchtt.TT(_scaled_guess(z0.cores, fz))
+        z = dmrg_hadamard_python(torchtt.TT(x_cores), torchtt.TT(y_cores), z0, nswp, eps, rmax, kickrank, verb)
+        return torchtt.TT([c * f for c, f in zip(z.cores, fz)])
     
 def dmrg_hadamard_python(z, x, y0 = None, nswp = 20, eps = 1e-12, rmax = 32768, kickrank = 4, verb = False):
     """
